@@ -357,6 +357,16 @@ func (e *env) monitorC02(ops []*op, single bool) {
 	if (o.r.Faulted() || o.r.Rejected != "") && !o.r.Diff.Empty() {
 		b.Violation("failed invocation changed storage", e.detail(ops, nil))
 	}
+	if o.kind == "btick" && !alpha && !o.r.Halted() {
+		// was there anything to release? (a refused call leaves the storage as it was)
+		accs, _, _ := e.scan()
+		for _, a := range accs {
+			if a.Until.Sign() != 0 && a.Until.Cmp(big.NewInt(o.epoch)) <= 0 && a.Balance.Sign() > 0 {
+				b.Hit("direct-epoch-unlock-refused")
+				break
+			}
+		}
+	}
 }
 
 // ---------------------------------------------------------------- C09
